@@ -108,6 +108,19 @@ def register_class(name, repo, *classinfos):
                     consts[attr] = ("unknown", None)
 
 
+_NP_DTYPES = {}
+for _p in ("np.", "numpy."):
+    for _n, _k in (("intp", "int"), ("int64", "int"), ("int32", "int"), ("int_", "int"), ("float64", "float"), ("float32", "float"), ("float_", "float"),
+                   ("double", "float"), ("bool_", "bool"), ("uint64", "int")):
+        _NP_DTYPES[_p + _n] = "dtype:" + _k
+_OPERATOR_FUNCS = {"operator.add": ast.Add, "operator.sub": ast.Sub, "operator.mul": ast.Mult, "operator.truediv": ast.Div, "operator.neg": "neg",
+                   "operator.iadd": ast.Add, "operator.isub": ast.Sub, "operator.pos": "pos"}
+
+
+class BoundedCount(list):
+    """itertools.count(): the first 5000 values; running off the end is a loop bound of the interpreter, not of the program"""
+
+
 class Raised(Exception):
     def __init__(self, exc):
         self.exc = exc
@@ -155,6 +168,7 @@ class Abs:
         self.getters = getters or {}
         self.budget = budget
         self.consts = {}      # dotted library name -> abstract value (e.g. np.random -> generator object)
+        self.self_class = None  # (repo, ClassInfo): the concrete class of self_obj when its abstract class name stands for several
         self.module = None    # source Module of the code being interpreted (resolution of module-level names)
         self.depth = 0        # inlining depth
         if self_obj is not None:
@@ -203,8 +217,16 @@ class Abs:
                 return self.consts[dn]
             if dn in ("np.inf", "numpy.inf", "math.inf", "np.Inf"):
                 return float("inf")
+            if dn in ("np.newaxis", "numpy.newaxis"):
+                return None
+            if dn in _NP_DTYPES and dn not in self.summaries:
+                return _NP_DTYPES[dn]
+            if dn in ("np.nan", "numpy.nan", "math.nan"):
+                return float("nan")
             if dn in self.summaries:
                 return ("callable", dn)
+            if dn in _OPERATOR_FUNCS:
+                return ("py", (lambda *a, _dn=dn: self._operator(_dn, list(a))))
             if dn is not None and not self._const_rooted(dn):
                 if dn in self.types:
                     return ("callable", dn)
@@ -447,7 +469,7 @@ class Abs:
             if base.attrs.get("__open__"):
                 return ("method", attr)      # any other attribute of an open object is an opaque bound method
             if (base is self.self_obj and attr in self.class_methods) or attr in CLASS_METHODS.get(base.cls, ()):
-                fi, kind = self._real_member(base.cls, attr)
+                fi, kind = self._real_member(base.cls, attr, base)
                 if fi is not None and kind == "method":
                     return ("imeth", fi, base)
                 if fi is not None and kind == "getter":
@@ -460,7 +482,7 @@ class Abs:
                     return ca[1]
                 raise Undecided("attribute %s.%s is set by the constructor but not provided by the rule's abstract object" % (base.cls, attr))
             raise Raised("AttributeError(%s.%s)" % (base.cls, attr))
-        if isinstance(base, dict) and attr in ("items", "keys", "values", "get", "update", "copy"):
+        if isinstance(base, dict) and attr in ("items", "keys", "values", "get", "update", "copy", "setdefault", "pop"):
             return ("dictm", attr, base)
         if isinstance(base, AList) and attr in base.extra:
             v = base.extra[attr]
@@ -534,6 +556,15 @@ class Abs:
             return list(range(*args))
         if dn == "bool" and len(args) == 1:
             return self.truth(args[0])
+        if dn == "object" and not args:
+            self._obj_counter = getattr(self, "_obj_counter", 0) + 1
+            return Tok("object#%d" % self._obj_counter, "obj")
+        if dn in _OPERATOR_FUNCS and dn not in self.env:
+            return self._operator(dn, args)
+        if dn in ("itertools.count", "count") and dn not in self.env and len(args) <= 2:
+            start = args[0] if args else 0
+            step = args[1] if len(args) > 1 else 1
+            return BoundedCount(start + i * step for i in range(5000))
         if dn == "itertools.product":
             import itertools as _it
             seqs = [self._iter(a) for a in args]
@@ -602,7 +633,7 @@ class Abs:
             return None
         if dn == "callable":
             return isinstance(args[0], tuple) and bool(args[0]) and args[0][0] in ("callable", "lambda", "bound", "sampler", "py", "func", "imeth", "closure", "method", "boundclosure")
-        if dn == "print":
+        if dn == "print" or (dn is not None and (dn.startswith("logging.") or dn in ("warnings.warn", "logger.debug", "logger.info", "logger.warning"))):
             return None
         if dn in ("int", "float"):
             v = args[0]
@@ -709,8 +740,20 @@ class Abs:
                 if m == "get":
                     return d.get(self._key(args[0]), args[1] if len(args) > 1 else None)
                 if m == "update":
-                    d.update(args[0])
+                    if args:
+                        src = args[0]
+                        d.update(src if isinstance(src, dict) else {self._key(k_): v_ for k_, v_ in self._iter(src)})
+                    d.update(kw)
                     return None
+                if m == "setdefault":
+                    return d.setdefault(self._key(args[0]), args[1] if len(args) > 1 else None)
+                if m == "pop":
+                    kk = self._key(args[0])
+                    if kk in d:
+                        return d.pop(kk)
+                    if len(args) > 1:
+                        return args[1]
+                    raise Raised("KeyError(%r)" % (kk,))
                 if m == "copy":
                     return dict(d)
             if tag == "listm":
@@ -782,6 +825,18 @@ class Abs:
             self.env[t.id] = v
         elif isinstance(t, (ast.Tuple, ast.List)):
             vals = self._iter(v)
+            stars = [i for i, x in enumerate(t.elts) if isinstance(x, ast.Starred)]
+            if len(stars) == 1:
+                k = stars[0]
+                after = len(t.elts) - k - 1
+                if len(vals) < len(t.elts) - 1:
+                    raise Raised("ValueError(unpack)")
+                for x, vv in zip(t.elts[:k], vals[:k]):
+                    self._bind(x, vv)
+                self._bind(t.elts[k].value, list(vals[k:len(vals) - after]))
+                for x, vv in zip(t.elts[k + 1:], vals[len(vals) - after:]):
+                    self._bind(x, vv)
+                return
             if len(vals) != len(t.elts):
                 raise Raised("ValueError(unpack)")
             for x, vv in zip(t.elts, vals):
@@ -852,7 +907,8 @@ class Abs:
                 self.run(st.body if self.truth(self.ev(st.test)) else st.orelse)
             elif isinstance(st, ast.For):
                 broke = False
-                for item in self._iter(self.ev(st.iter)):
+                seq_ = self.ev(st.iter)
+                for item in self._iter(seq_):
                     self._bind(st.target, item)
                     try:
                         self.run(st.body)
@@ -861,6 +917,8 @@ class Abs:
                         break
                     except _Continue:
                         continue
+                if not broke and isinstance(seq_, BoundedCount):
+                    raise Undecided("loop bound")
                 if not broke:
                     self.run(st.orelse)
             elif isinstance(st, ast.While):
@@ -922,6 +980,14 @@ class Abs:
         parts = dn.split(".")
         return any(".".join(parts[:k]) in self.consts for k in range(1, len(parts)))
 
+    def _operator(self, dn, args):
+        op = _OPERATOR_FUNCS[dn]
+        if op == "neg":
+            return self.binop(ast.Sub(), 0, args[0])
+        if op == "pos":
+            return args[0]
+        return self.binop(op(), args[0], args[1])
+
     def _is_library(self, name):
         """a module alias such as np / sympy / st / itertools (an imported name that is not a module of the package)"""
         if name in ("np", "numpy", "sympy", "scipy", "st", "math", "itertools", "copy", "functools", "re", "warnings"):
@@ -937,13 +1003,17 @@ class Abs:
         sub.module = module
         sub.depth = self.depth + 1
         sub.consts = self.consts
+        sub.self_class = self.self_class if self_obj is self.self_obj else None
         return sub
 
-    def _real_member(self, clsname, attr):
-        info = CLASS_INFOS.get(clsname)
-        if info is None or len(info[1]) != 1:
-            return None, None
-        repo, (ci,) = info
+    def _real_member(self, clsname, attr, base=None):
+        if self.self_class is not None and (base is None or base is self.self_obj):
+            repo, ci = self.self_class
+        else:
+            info = CLASS_INFOS.get(clsname)
+            if info is None or len(info[1]) != 1:
+                return None, None
+            repo, (ci,) = info
         fi = repo.resolve_method(ci, attr)
         if fi is not None:
             return fi, "method"
@@ -971,20 +1041,30 @@ class Abs:
 
     def _run_bound(self, fnode, args, kw, skip_self):
         a = fnode.args
-        if a.vararg is not None or a.kwarg is not None:
-            raise Undecided("*args/**kwargs of %s are not modelled" % fnode.name)
         params = [x.arg for x in a.posonlyargs + a.args]
         if skip_self and params:
             params = params[1:]
+        extra_pos = []
         if len(args) > len(params):
-            raise Raised("TypeError(too many arguments for %s)" % fnode.name)
+            if a.vararg is None:
+                raise Raised("TypeError(too many arguments for %s)" % fnode.name)
+            extra_pos = list(args[len(params):])
+            args = list(args[:len(params)])
         bound = dict(zip(params, args))
+        extra_kw = {}
         for k, v in kw.items():
             if k not in params and k not in [x.arg for x in a.kwonlyargs]:
-                raise Raised("TypeError(unexpected keyword %s for %s)" % (k, fnode.name))
+                if a.kwarg is None:
+                    raise Raised("TypeError(unexpected keyword %s for %s)" % (k, fnode.name))
+                extra_kw[k] = v
+                continue
             if k in bound:
                 raise Raised("TypeError(multiple values for %s)" % k)
             bound[k] = v
+        if a.vararg is not None:
+            bound[a.vararg.arg] = tuple(extra_pos)
+        if a.kwarg is not None:
+            bound[a.kwarg.arg] = extra_kw
         for x, d in zip(a.kwonlyargs, a.kw_defaults):
             if x.arg not in bound:
                 if d is None:
